@@ -172,12 +172,13 @@ class Ctx:
         from . import pm
 
         robust = bool(facts.pop("robust", False))
+        local = bool(facts.pop("local", False))    # the evidence is entirely inside the function reported: no recognition needed
 
         pm.take_log()
         # every violation is reported against code the analysis still recognises: the function (top-level form) the
         # finding is about must be nearly the reviewed one.  In a function rewritten at large the facts a rule extracts
         # can mean something else than they did when the rule was confirmed; the instance is then unresolved.
-        if not os.environ.get("HYVERIF_EDIT_STATS") and not self._recognised(file, line, loose=robust):
+        if not os.environ.get("HYVERIF_EDIT_STATS") and not local and not self._recognised(file, line, loose=robust):
             self.unres(rule, key, f"not reported, the code is no longer recognised ({getattr(self, 'last_recognition', '')}): " + message[:200])
             return
         if os.environ.get("HYVERIF_EDIT_STATS"):
